@@ -291,6 +291,7 @@ impl Universe {
     /// what reading that directory gives (explicit entries - identified by the harness's own
     /// reader - plus the implicit bin/lib/... entries).
     pub fn env_token_at(&self, env: &LayerEnv, layer_dir: &Path) -> String {
+        let _p = Pause::new();   // the harness's own reads are no part of the call under test
         match LayerEnv::read_from_layer_dir(layer_dir) {
             Ok(disk) if disk == *env => match read_env_entries(layer_dir) {
                 Ok(e) => self.env_token_of_entries(e),
@@ -753,10 +754,13 @@ pub fn shim_activate(on: bool) {
         f(i32::from(on));
     }
 }
+/// Pauses the fault shim while the harness itself touches the file system (callbacks, projections);
+/// nestable.
 struct Pause;
+static PAUSE_DEPTH: std::sync::atomic::AtomicUsize = std::sync::atomic::AtomicUsize::new(0);
 impl Pause {
     fn new() -> Self {
-        if FAULT_WINDOW.load(std::sync::atomic::Ordering::SeqCst) {
+        if FAULT_WINDOW.load(std::sync::atomic::Ordering::SeqCst) && PAUSE_DEPTH.fetch_add(1, std::sync::atomic::Ordering::SeqCst) == 0 {
             shim_activate(false);
         }
         Pause
@@ -764,7 +768,7 @@ impl Pause {
 }
 impl Drop for Pause {
     fn drop(&mut self) {
-        if FAULT_WINDOW.load(std::sync::atomic::Ordering::SeqCst) {
+        if FAULT_WINDOW.load(std::sync::atomic::Ordering::SeqCst) && PAUSE_DEPTH.fetch_sub(1, std::sync::atomic::Ordering::SeqCst) == 1 {
             shim_activate(true);
         }
     }
